@@ -1,6 +1,7 @@
 package vc
 
 import (
+	"go/types"
 	"bufio"
 	"fmt"
 	"os"
@@ -66,6 +67,7 @@ type PureFn struct {
 	Decreases string
 	File      string
 	Line      int
+	DcsType   types.Type // set for generated deep-copy spec functions
 	// computed
 	Heaps     []string
 	Recursive bool
@@ -85,6 +87,7 @@ type Template struct {
 }
 
 type ContractSet struct {
+	Shared    map[string]string // "Type.Field" -> reason: fields a deep copy shares with its source (by pointer) instead of copying
 	Templates []Template
 	Funcs map[string]*Contract
 	Pures map[string]*PureFn
@@ -193,6 +196,18 @@ func (cs *ContractSet) loadFile(path string) error {
 				return fmt.Errorf("%s:%d: props outside func", path, r.line)
 			}
 			cur.Props = append(cur.Props, strings.Fields(strings.ReplaceAll(r.text, ",", " "))...)
+		case "deepcopy-shares":
+			// deepcopy-shares Type.Field : reason  — the deepcopy predicate demands pointer equality for this
+			// field instead of a copy (a recorded, deliberate weakening; listed in the evidence)
+			parts := strings.SplitN(r.text, ":", 2)
+			if cs.Shared == nil {
+				cs.Shared = map[string]string{}
+			}
+			reason := ""
+			if len(parts) == 2 {
+				reason = strings.TrimSpace(parts[1])
+			}
+			cs.Shared[strings.TrimSpace(parts[0])] = reason
 		case "spec-fields":
 			cs.Templates = append(cs.Templates, Template{Pkg: pkg, Kw: "spec", Text: r.text, File: path, Line: r.line})
 		case "requires", "ensures", "invariant", "decreases":
